@@ -311,7 +311,9 @@ func bubble(c *harness.Ctx) {
 			c.Probe("resolver-stuck-after-connection-fault")
 			continue
 		}
-		if connFaults == 0 && r.end-r.start > effTimeout+2*time.Second {
+		// generous on purpose: what is asserted is "bounded by the configured timeout", not how the implementation
+		// splits it between the service load and the URI load
+		if connFaults == 0 && r.end-r.start > 2*effTimeout+5*time.Second {
 			c.Fail("C19", "resolver-late", "resolver-late", "resolver %d took %v of virtual time, initial timeout is %v (%s)", i, r.end-r.start, effTimeout, workload)
 			return
 		}
@@ -334,7 +336,22 @@ func bubble(c *harness.Ctx) {
 		}
 	}
 	// C18's use in D2: resolvers racing on a fresh client share one initial load
-	if connFaults == 0 {
+	// (only where nothing could justify a second load: no connection fault, the service never moved between
+	// clusters, and no resolver was told of a failed load - retrying a failed load would be legitimate)
+	anyErr := false
+	for _, r := range recs {
+		if r.done && r.err != "" {
+			anyErr = true
+		}
+	}
+	moved := false
+	for _, d := range desc {
+		if strings.HasPrefix(d, "service moves") {
+			moved = true
+		}
+	}
+	if connFaults == 0 && !anyErr && !moved {
+		c.Probe("single-initial-load-checked")
 		for _, p := range []string{"/d2/services/" + svc, "/d2/uris/" + cluster, "/d2/uris/" + cluster2} {
 			if n := z.Count(3, p); n > 1 {
 				c.Fail("C18", "double-initial-load", "double-initial-load", "%d exists() requests for %s: racing resolvers ran the initial load more than once (%s)", n, p, workload)
